@@ -2,7 +2,7 @@ SPECIFICATION Spec
 CONSTANTS
   MaskBytes = {0, 90, 255}
   MaxLen = 24
-  NPat = 2
+  NPat = 1
 INVARIANT Partial
 INVARIANT Correct
 PROPERTY Termination
